@@ -82,16 +82,20 @@ def gen_history_ops(rng: Rng, world: Dict[str, Any], n: int) -> List[Dict[str, A
     return ops
 
 
-def gen_plan(rng: Rng, tier: str, faulty: bool = False, big: bool = False) -> Dict[str, Any]:
+def gen_plan(rng: Rng, tier: str, faulty: bool = False, big: bool = False, huge: bool = False) -> Dict[str, Any]:
     overrides = None
     if big:
         overrides = {"ops_per_step": 32, "steps": 4, "max_depth": 4, "ranks": 1}
+    if huge:
+        # more than 32767 events in one rank: event ids cross the int16 width
+        overrides = {"wide_ops": 20000, "ranks": 1, "steps": 2, "ops_per_step": 2, "max_depth": 2, "flow_p": 0.0,
+                     "meta_noise": False, "order": "grouped", "indent": None, "fractional": False, "tiny_events": False}
     world = worldgen.gen_world(rng.fork("world"), "callgraph", overrides)
     sessions = []
     for si in range(rng.weighted([(1, 6), (2, 2)])):
         r = rng.fork(f"s{si}")
         ops: List[Dict[str, Any]] = [{"op": "load", "mode": "ta", "via": "dir", "include_last": r.chance(0.5)}]
-        ops += gen_history_ops(r, world, r.randint(2, 7))
+        ops += gen_history_ops(r, world, r.randint(2, 3) if huge else r.randint(2, 7))
         sess = {"zygote": r.below(len(driver.HASH_SEEDS)), "env": loader.gen_env(r, len(world["files"]), False),
                 "pre": [], "ops": ops}
         if faulty:
